@@ -11,10 +11,41 @@ ORACLE = {
 }["C16"]
 
 
+BASELINE_LAYER_Q = (("ARG", "yaml_net_baseline"), ("USA", "yaml_net_baseline"), ("LSO", "yaml_net_baseline"), ("IND", "yaml_gross_baseline"), ("WOR", "g_baseline"))
+BASELINE_LAYER_T = BASELINE_LAYER_Q + (("LUX", "yaml_net_baseline"), ("NGA", "yaml_net_baseline"), ("JPN", "yaml_gross_baseline"), ("DJI", "yaml_net_baseline"), ("BRA", "yaml_gross_baseline"))
+
+
+def baseline_job(job):
+    """one run of the baseline-family deviation layer, judged by the C16 monitor only"""
+    pipeline.init()
+    pipeline.run_job.want = ("C16",)
+    out, st = pipeline.run_job(job)
+    if st.get("harness_error"):
+        return {"error": st["harness_error"], "job": list(job[:3])}
+    return {"v": out["C16"], "failed": bool(st.get("failed"))}
+
+
 def run(tier, seed):
-    return pipeline.run_property("C16", tier, seed, ORACLE,
-                                 ["CBC and HiGHS are trusted as LP solvers (oracles for one enumerated instance each)",
-                                  "cumulative clauses use 1e-5 relative + 1e-6 absolute (sums of up to 120 solver values)"])
+    from .. import common, options
+    # the shared exploration takes its single deviations from the catastrophe presets only (stock reserve "zero"); interactions of an option
+    # with the baseline family's defaults (stock reserve kept, baseline climate, no waste) are reached from the baseline presets
+    bjobs = []
+    for iso, pn in (BASELINE_LAYER_Q if tier == "quick" else BASELINE_LAYER_T):
+        base = options.preset(pn)
+        bjobs += [(iso, pn, tag, o) for tag, o in options.single_deviations(base)]
+    bres = common.pmap(baseline_job, bjobs, init_fn=pipeline.init, chunksize=1)
+    berr = [r for r in bres if "error" in r]
+    if berr:
+        raise RuntimeError("baseline layer harness errors: %s" % berr[:2])
+    res = pipeline.run_property("C16", tier, seed, ORACLE,
+                                ["CBC and HiGHS are trusted as LP solvers (oracles for one enumerated instance each)",
+                                 "cumulative clauses use 1e-5 relative + 1e-6 absolute (sums of up to 120 solver values)"])
+    res["violations"] = res["violations"] + [v for r in bres for v in r["v"]]
+    cov = res["coverage"]
+    cov["baseline_family_layer"] = {"runs": len(bjobs), "bases": [list(b) for b in (BASELINE_LAYER_Q if tier == "quick" else BASELINE_LAYER_T)],
+                                    "what": "every single deviation of the baseline-family presets on these countries / the world", "runs_that_failed": sum(1 for r in bres if r.get("failed"))}
+    cov["executions"] += len(bjobs)
+    return res
 
 
 def replay(rp):
